@@ -371,6 +371,7 @@ ERROR_CATS = [
     ("after the global stop condition held", "control"),
     ("although the global stop condition holds", "control"),
     ("after the metaepoch ended", "control"),
+    ("is false again", "control"),
     ("is next in the schedule", "schedule"),
     ("is running", "schedule"),
     ("inactive deme", "schedule"),
